@@ -8,7 +8,11 @@ from typing import Any, ClassVar, Sequence
 from tree_sitter import Node
 
 from nix_manipulator.exceptions import NixSyntaxError
-from nix_manipulator.expressions.binding import Binding, _split_attrpath
+from nix_manipulator.expressions.binding import (
+    Binding,
+    _same_attr_name,
+    _split_attrpath,
+)
 from nix_manipulator.expressions.binding_parser import parse_binding_sequence
 from nix_manipulator.expressions.comment import Comment, MultilineComment
 from nix_manipulator.expressions.expression import NixExpression, TypedExpression
@@ -404,7 +408,7 @@ class AttributeSet(TypedExpression):
     def __getitem__(self, key: str):
         """Allow dict-style access for manipulating bindings by name."""
         for binding in self.values:
-            if isinstance(binding, Binding) and binding.name == key:
+            if isinstance(binding, Binding) and _same_attr_name(binding.name, key):
                 value = binding.value
                 if isinstance(value, NixExpression):
                     attach_resolution_context(value, owner=self)
@@ -454,7 +458,8 @@ class AttributeSet(TypedExpression):
                 (
                     item
                     for item in current.values
-                    if isinstance(item, Binding) and item.name == segment
+                    if isinstance(item, Binding)
+                    and _same_attr_name(item.name, segment)
                 ),
                 None,
             )
@@ -477,7 +482,7 @@ class AttributeSet(TypedExpression):
         if isinstance(value, NixExpression):
             clear_resolution_context(value)
         for binding in self.values:
-            if isinstance(binding, Binding) and binding.name == key:
+            if isinstance(binding, Binding) and _same_attr_name(binding.name, key):
                 binding.value = value
                 return
         new_binding = Binding(name=key, value=value)
@@ -488,7 +493,7 @@ class AttributeSet(TypedExpression):
     def __delitem__(self, key: str):
         """Delete a binding by key and surface missing keys explicitly."""
         for i, binding in enumerate(self.values):
-            if isinstance(binding, Binding) and binding.name == key:
+            if isinstance(binding, Binding) and _same_attr_name(binding.name, key):
                 del self.values[i]
                 if self.attrpath_order:
                     for index, item in enumerate(self.attrpath_order):
